@@ -75,7 +75,7 @@ def normalise(events):
         elif k == "fwait":
             n["a"], n["v"], n["ok"] = e["exp"], e["cur"], e["res"] == "block"
         elif k == "fret":
-            n["ok"] = e["res"] in ("woken", "spurious")
+            n["ok"] = e["res"] in ("woken", "spurious", "eintr")
         elif k == "fwake":
             n["v"] = e["woken"]
         elif k in ("call", "ret"):
